@@ -21,9 +21,10 @@ func init() {
 		Explain: "PARTIAL — structural necessary conditions only. Decided: (range) the slice of partitions a member gets is partitions[f(i):f(i+1)] with one and the same rounding function f of the member's index, so consecutive ranges are contiguous and telescope over the topic (C13.range-telescoping); (round-robin) the member examined and assigned is members[i % n] at every point, and the cursor advances by exactly one after every assignment and every skipped member (C13.rr-cursor); " +
 			"(sticky, no pairwise swap) every move of a partition goes through reassignPartition, which moves the partition chosen by movements.getTheActualPartitionToBeMoved for the same (old owner, new owner) pair, that function looks the reverse pair (new → old) up in the topic's movement record and returns one of its partitions when present, and processPartitionMovement records every move (C13.swap-guard); " +
 			"(sticky, prior state) of the owners claiming a partition in user data the one with the highest generation becomes the current owner and the next one the previous owner (C13.generation-order). " +
+			"(sticky, balance test) isBalanced examines every member: the loops that look for a partition a lighter member could take from a heavier one are left only when they are exhausted or with the verdict `false` — an early `break` declares the assignment balanced without having looked at the remaining members (C13.balance-test). " +
 			"Shared with C08: the eligibility guards of the three strategies (C08.eligible) — a remembered partition that no longer exists, kept in a member's working list, counts towards its size and can never be moved, so the plan stays unbalanced. " +
 			"NOT decided: that range sizes / round-robin totals differ by at most one (floating-point and modular arithmetic), balance in Kafka's sense, the fixed point of re-planning, keep-on-leave and no-shuffle-on-join — these are relations over the algorithm's outputs for all inputs and need execution or a solver.",
-		Rules: []func(*Ctx){c13Range, c13RoundRobin, c13SwapGuard, c13Generation, c08Rules},
+		Rules: []func(*Ctx){c13Range, c13RoundRobin, c13SwapGuard, c13Generation, c13BalanceTest, c08Rules},
 	})
 }
 
@@ -628,4 +629,68 @@ func c13Generation(c *Ctx) {
 		}
 	})
 	c.Check(okPrev && nPrev > 0, rule, fn, "previous-owner-is-second", nil, "the previous owner is consumers[g[1]] with generation g[1], recorded only when there are two claimants", "the previous owner recorded for a partition is not the second-highest generation's claimant (or is recorded without one existing)", nil)
+}
+
+// c13BalanceTest: isBalanced answers "true" only after it has looked at every member and every partition
+// that member could get.
+func c13BalanceTest(c *Ctx) {
+	rule := "C13.balance-test"
+	c.Doc(rule, "isBalanced: every loop whose body can return false (the search for a counter-example) is left only through its own header, i.e. when the collection is exhausted, or by returning false; `return true` occurs only before those loops (the min/max shortcut) or after them")
+	c.Floor(rule, 2)
+	fn := c.NeedFn(rule, "isBalanced")
+	if fn == nil {
+		return
+	}
+	fi := Info(fn)
+	retFalse := func(b *ssa.BasicBlock) bool {
+		r, ok := lastInstr(b).(*ssa.Return)
+		return ok && len(r.Results) == 1 && ConstBool(false)(RetVals(r)[0])
+	}
+	n := 0
+	for _, l := range fi.Loops {
+		// only loops that search for a counter-example
+		has := false
+		for b := range l.Blocks {
+			for _, s := range b.Succs {
+				if retFalse(s) || retFalse(b) {
+					has = true
+				}
+			}
+		}
+		if !has {
+			continue
+		}
+		n++
+		var bad *ssa.BasicBlock
+		for b := range l.Blocks {
+			if b == l.Head {
+				continue
+			}
+			for _, s := range b.Succs {
+				if l.Blocks[s] || retFalse(s) {
+					continue
+				}
+				// leaving the loop from its body to something that is not `return false`: a break (or return true)
+				// unless the target is the header of an enclosing loop (continue of the outer loop)
+				outerHead := false
+				for _, l2 := range fi.Loops {
+					if l2 != l && l2.Head == s && l2.Blocks[l.Head] {
+						outerHead = true
+					}
+				}
+				if !outerHead {
+					bad = b
+				}
+			}
+		}
+		var at ssa.Instruction
+		if bad != nil {
+			at = lastInstr(bad)
+		}
+		c.Check(bad == nil, rule, fn, "search-loop-exhaustive", at, "the search loop is left only when exhausted or with `false`",
+			"a loop of isBalanced that searches for a partition a lighter member could take is left early (break / return true) from its body: members that were not examined are taken to be balanced, reassignment stops and a member keeps partitions that another one with two fewer could take", nil)
+	}
+	if n == 0 {
+		c.Unresolved(rule, "search loops of isBalanced (loops that can return false)")
+	}
 }
